@@ -321,6 +321,61 @@ def gen_relay_longpair_base(rng):
     return {"sys": lines, "cb": cb, "preds": preds, "feat": feat, "nprocs": 3, "nnodes": nnodes}
 
 
+def gen_twin_delay_base(rng):
+    """a sender emits two messages to a STATELESS process that arms the same timer ONCE on either, with another delay
+    per message: after both arrived (in either order) the two histories differ only in the delay of the pending timer
+    (equal ids, equal names, equal process states).  A second timer armed on a third message is withheld behind the
+    first or not, depending on that delay."""
+    nnodes = rng.choice([1, 2, 2])
+    placement = [rng.randrange(nnodes) for _ in range(2)]
+    tip = TIPS[0]
+    pls = list(PAYLOADS[:6])
+    rng.shuffle(pls)
+    def key(data):
+        return [1, 0] + list(tip) + [256] + list(data)
+    # three payloads that select three different rows of the stateless process, while the timer firings select
+    # other (empty) rows: the process never re-arms, so the state space is finite without a depth bound
+    pick = None
+    for nrows in (5, 6, 7, 8, 9, 11):
+        free = {script_row(0, [3, 0], nrows, True), script_row(0, [3, 1], nrows, True)}
+        for a in pls:
+            for b in pls:
+                for z in pls:
+                    rs = [script_row(0, key(x), nrows, True) for x in (a, b, z)]
+                    if len({a, b, z}) == 3 and len(set(rs)) == 3 and not (set(rs) & free):
+                        pick = (a, b, z, nrows)
+                        break
+                if pick:
+                    break
+            if pick:
+                break
+        if pick:
+            break
+    lines = ["NODE %d 0" % n for n in range(nnodes)]
+    if pick is None:
+        return gen_relay_longpair_base(rng)
+    a, b, z, nrows = pick
+    order = [a, b, z]
+    rng.shuffle(order)
+    lines.append("PROC 0 %d 1 0 0 1" % placement[0])
+    lines.append("ROW 0 3 " + " ".join("S 1 %s %s" % (bstr(tip), bstr(x)) for x in order))
+    d1, d2 = rng.choice([(1.0, 10.0), (10.0, 1.0), (0.5, 3.0), (2.0, 1.0)])
+    d3 = rng.choice([5.0, 2.0, 0.75])
+    rows = {script_row(0, key(a), nrows, True): "1 T 0 %d 1" % f64_bits(d1),
+            script_row(0, key(b), nrows, True): "1 T 0 %d 1" % f64_bits(d2),
+            script_row(0, key(z), nrows, True): "1 T 1 %d 1" % f64_bits(d3)}
+    lines.append("PROC 1 %d 1 2 0 %d" % (placement[1], nrows))
+    for r in range(nrows):
+        lines.append("ROW 1 %s" % rows.get(r, "0 "))
+    lines.append("NET 0 0 0 %d %d" % (f64_bits(1.0), f64_bits(1.0)))
+    lines += clock_lines([0.0])
+    cb = ["CB LOCAL %d 0 %s" % (placement[0], gen_msg(rng))]
+    feat = {"timers": True, "override": False, "clock": False, "drop": False, "dupl": False, "corrupt": False, "crash": False,
+            "netops": False, "mf": False, "stateless": True, "twin_delay": True}
+    preds = ["PRED INV NONE", "PRED GOAL NOEVENTS", "PRED PRUNE NONE", "PRED COLLECT NONE"]
+    return {"sys": lines, "cb": cb, "preds": preds, "feat": feat, "nprocs": 2, "nnodes": nnodes}
+
+
 def gen_crash_base(rng):
     """crashes with a lot pending: several processes per node, timers re-armed under the same name (also while
     still pending), messages in both directions; the callback crashes a node after its processes were started"""
